@@ -320,7 +320,13 @@ class Body:
         self.origins(x, depth, via=v)
         return v
 
-    def origins(self, x, depth=40, via=None):
+    def origins(self, x, depth=40, via=None, restrict=None, deep=False):
+        """`restrict`: ordered list of blocks (a path prefix). When given, a local with several definitions takes only the
+        latest definition that lies on that path (path-restricted provenance); single-definition temporaries are unaffected."""
+        order = {b: i for i, b in enumerate(restrict)} if restrict is not None else None
+        return self._origins(x, depth, via, order, deep)
+
+    def _origins(self, x, depth, via, order, deep=False):
         """Origins of an operand or place: set of tuples
              ('param', name_or_index, fieldpath)   – argument / captured variable (+ field names)
              ('const', def_or_None, value)         – named or literal constant
@@ -381,6 +387,11 @@ class Body:
             if not defs:
                 out.add(("unknown", "nodef:_%d" % l))
                 return
+            if order is not None and len(defs) > 1:
+                on = [dd for dd in defs if dd[0] in order and not (dd[2] == "assign" and dd[3]["lhs"]["p"])]
+                if on:
+                    latest = max(on, key=lambda dd: (order[dd[0]], dd[1] if isinstance(dd[1], int) else 10 ** 6))
+                    defs = [latest] + [dd for dd in defs if dd[2] == "assign" and dd[3]["lhs"]["p"]]
             for (bi, si, kind, payload) in defs:
                 if kind == "assign":
                     if payload["lhs"]["p"]:
@@ -446,6 +457,11 @@ class Body:
                     if idx is not None and idx < len(rv["ops"]):
                         from_operand(rv["ops"][idx], path[1:], d)
                         return
+                if deep and rv["ops"]:
+                    # leaves of the aggregate: everything it was built from
+                    for o_ in rv["ops"]:
+                        from_operand(o_, (), d)
+                    return
                 out.add(("agg", head, bi))
             elif k == "bin":
                 out.add(("bin", rv["op"], bi))
